@@ -52,7 +52,7 @@ static std::string vjson(const Val& v, size_t max = 160) { std::string s = str(v
 
 static Val gen_value(const TypeCtx& c, uint64_t case_idx, uint64_t salt, bool allow_big = false, bool force_big = false) {
   Rng r = case_rng(c.t->name, case_idx, salt);
-  GenOpts o; o.big = allow_big || force_big; o.force_big = force_big;
+  GenOpts o; o.big = allow_big || force_big; o.force_big = force_big; o.nonrepresentable_nestings = (c.t->flags & F_AMBIGUOUS) != 0;
   Gen g(r, o);
   return g.gen(c.sch);
 }
@@ -154,8 +154,11 @@ static void c01_case(const TypeCtx& c, uint64_t ci) {
     Source src; src.init(rk, stream.data(), stream.size(), r_is_bounded(rk) ? stream.size() + (ci % 3) : SIZE_MAX, 1 + (unsigned)(ci % 7), pipe);
     attach_resolver(src, &rs);
     bool ok = true;
+    // the values of a sequence are read into one object (as a receive loop does) on every other reader kind, into fresh objects otherwise
+    std::unique_ptr<Obj> reused; if (((ci >> 2) + (uint64_t)rk) % 2 == 0) { reused.reset(new Obj(c.t)); rep().count("c01_sequences_read_into_one_object"); }
     for (size_t i = 0; i < objs.size() && ok; i++) {
-      Obj o2(c.t);
+      std::unique_ptr<Obj> fresh; if (!reused) fresh.reset(new Obj(c.t));
+      Obj& o2 = reused ? *reused : *fresh;
       auto st = c.t->read(src, o2.p);
       if (!st) { viol(fmt("C01:read-failed:%s:%s", rname(rk), tkey(c).c_str()), fmt("%s failed with '%s' on value %zu of %d of bytes the library wrote (%s)", rname(rk), errname(st.error()), i, nvals, hex(ref_bytes, 40).c_str()), J().s("value", vjson(v0s[i])).str()); ok = false; break; }
       Val got = canoned(c.sch, o2.val());
@@ -353,6 +356,7 @@ static void build_mutations(const TypeCtx& c, const Val& v0, const Enc& e, uint6
   int cand = count_struct_candidates(c.sch, v0);
   for (int t = 0; t < cand && t < 6; t++) for (int variant = 0; variant < 3; variant++) { Val mv = v0; ValMutator vm(r, cand <= 6 ? t : (int)r.below((uint64_t)cand), variant); vm.walk(c.sch, mv); if (variant > 0 && vm.desc.find("capacity+") == std::string::npos) continue; if (!vm.done) continue; Enc e2; RefEncode(c.sch, mv, e2); Mut m; m.bytes = e2.out; m.kind = MutKind::Structural; m.desc = vm.desc; m.category_comparable = true; m.defect_off = SIZE_MAX - 1; muts.push_back(std::move(m)); }
   table_wrap_mutations(e, muts);
+  table_unknown_entries_mutations(e, muts);
   noise_mutations(e.out, r, thorough ? 24 : 10, muts);
   for (int i = 0; i < (thorough ? 16 : 6); i++) muts.push_back(random_string(r));
 }
@@ -542,13 +546,16 @@ static void c06_case(const TypeCtx& c, uint64_t ci) {
   for (size_t cap : caps) {
     for (int wk : kCapWriters) {
       if (!w_ok(wk, c.t->flags)) continue;
-      for (int second = 0; second < 2; second++) {
-        std::string stage = fmt("cap%zu/%s/%d", cap, wname(wk), second);
+      for (int mode = 0; mode < (w_is_bounded(wk) ? 3 : 2); mode++) {
+        // mode 2 (bounded kinds): the bound is generous and the *wrapped* writer has the capacity under test - the limit of the wrapped writer must be honoured through the BoundedWriter
+        const int second = mode == 1; const bool inner_limited = mode == 2;
+        std::string stage = fmt("cap%zu/%s/%d", cap, wname(wk), mode);
         if (!args().only_stage.empty() && args().only_stage != stage) continue;
         set_current("%s", case_desc(c.t->name, (int64_t)ci, stage, J().u("getsize", gs).u("len", len).str()).c_str());
         Sink s; size_t pre = 0;
         // bounded kinds: inner buffer is generous, the bound is the capacity under test
-        if (w_is_bounded(wk)) s.init(wk, (second ? gsa : 0) + gs + 64, (second ? gsa : 0) + cap); else s.init(wk, (second ? gsa : 0) + cap);
+        if (inner_limited) { s.init(wk, cap, gs + 64); rep().count("c06_bounded_writes_limited_by_the_wrapped_writer"); }
+        else if (w_is_bounded(wk)) s.init(wk, (second ? gsa : 0) + gs + 64, (second ? gsa : 0) + cap); else s.init(wk, (second ? gsa : 0) + cap);
         if (second) { auto st0 = c.t->write(s, oa.p); if (!st0) { viol(fmt("C06:first-write-failed:%s:%s", wname(wk), tkey(c).c_str()), "first value did not fit its own GetSize"); continue; } pre = s.written(); if (pre > gsa) continue; if (w_is_bounded(wk)) { /* remaining bound = gsa - pre + cap */ } }
         size_t room = (second ? gsa - pre : 0) + cap;     // remaining capacity when the value under test is written
         auto st = c.t->write(s, o.p);
